@@ -86,6 +86,8 @@ struct FdSim
 	int open_errno = 0;            // next open() of a simulated path fails with this errno
 	bool as_fifo = false;          // fstat()/lseek() on simulated descriptors: regular file of the content's size (default) or a pipe (size 0, ESPIPE)
 	long fstats = 0, lseeks = 0;
+	bool lowest_free_is_zero = false; // the next open() of a simulated path returns descriptor 0 (the caller's stdin is closed)
+	bool zero_is_sim = false;         // descriptor 0 currently names a simulated file
 	// observations
 	long reads = 0, writes = 0, opens = 0, closes = 0, injected = 0, bad_close = 0, eof_reads = 0;
 	long short_xfers = 0, full_buffer_reads = 0;
